@@ -258,6 +258,22 @@ def swapped_args_census(F, prefix='lightning::'):
 			for i, a in enumerate(ci['args']):
 				e = strip(ex.of_operand(a))
 				g = e[2] if (e[0] == 'field' and not str(e[2]).isdigit()) or (e[0] == 'local' and e[2]) else None
+				# the user variable the operand is copied from, before transparent `let x = expr;` expansion (`let cur_height = self.best_block.height;
+				# f(.., cur_height /* conf_height */, ..)`)
+				g0 = None
+				l = a[1][0] if a[0] in ('c', 'm') and len(a[1]) == 1 else None
+				for _ in range(4):
+					if l is None:
+						break
+					if fu.local_name(l):
+						g0 = fu.local_name(l); break
+					ds = fu.defs.get(l, [])
+					if len(ds) == 1 and ds[0][3][0] == 'use' and ds[0][3][1][0] in ('c', 'm') and len(ds[0][3][1][1]) == 1:
+						l = ds[0][3][1][1][0]
+					else:
+						break
+				if g0 and g0 != ps[i] and g0 in ps and g != ps[i]:
+					g = g0
 				if not g or g == ps[i] or g not in ps:
 					continue
 				caller = root_fn(n).rsplit('::', 1)[-1]
@@ -291,7 +307,7 @@ SWAP_SCOPE = {
 	'C03': [r'ln/outbound_payment\.rs$'],
 	'C04': [r'ln/inbound_payment\.rs$', r'ln/onion_payment\.rs$'],
 	'C05': [r'sign/mod\.rs$', r'ln/chan_utils\.rs$'],
-	'C06': [r'chain/package\.rs$', r'chain/onchaintx\.rs$'],
+	'C06': [r'chain/package\.rs$', r'chain/onchaintx\.rs$', r'chain/channelmonitor\.rs$'],
 	'C07': [r'chain/channelmonitor\.rs$', r'chain/chainmonitor\.rs$', r'events/bump_transaction'],
 	'C14': [r'ln/onion_utils\.rs$', r'blinded_path/'],
 	'C15': [r'ln/peer_handler\.rs$', r'ln/peer_channel_encryptor\.rs$'],
